@@ -542,7 +542,18 @@ def install(interp):
     reg("round", np_round)
     reg("around", np_round)
 
-    def clip(ctx, a, lo, hi):
+    def clip(ctx, a, lo=None, hi=None, a_min=None, a_max=None):
+        lo = a_min if lo is None else lo
+        hi = a_max if hi is None else hi
+        if isinstance(lo, (Arr, list, tuple)) or isinstance(hi, (Arr, list, tuple)):
+            # numpy: minimum(maximum(a, lo), hi), element-wise with broadcasting
+            r = a
+            if lo is not None:
+                r = ew2(ops.smax)(ctx, r, lo)
+            if hi is not None:
+                r = ew2(ops.smin)(ctx, r, hi)
+            return r
+
         def f(x):
             if lo is not None:
                 x = ops.smax(x, lo)
